@@ -17,11 +17,20 @@ use crate::world::*;
 
 pub struct C01;
 
+/// One step of a typed session.
+#[derive(Clone, Debug, PartialEq)]
+pub enum Step {
+    /// a direct-mode line (AST)
+    Direct(Vec<Stmt>),
+    /// the stored program is edited into this version (changed lines typed, vanished lines deleted by number)
+    Edit(Program),
+}
+
 #[derive(Clone)]
 pub struct C01Case {
     pub prog: Program,
-    /// direct lines typed after the program, as ASTs
-    pub session: Vec<Vec<Stmt>>,
+    /// what is typed after the program
+    pub session: Vec<Step>,
     pub replies: Vec<String>,
     pub sched_variant: usize,
     pub sched_seed: u64,
@@ -107,23 +116,52 @@ impl C01Case {
         render_program(&self.prog)
     }
 
-    /// Run the reference model over the session. Returns per-line transcripts and how each ended.
+    /// Run the reference model over the session. Returns per-step transcripts and how each ended.
     pub fn reference(&self, auto: Option<Rng>) -> (Vec<(String, Ended)>, Ref) {
         let mut r = Ref::new(&self.prog);
         r.replies = self.replies.iter().cloned().collect();
         r.auto_reply = auto;
         r.max_steps = 30_000;
         let mut out = vec![];
-        for line in &self.session {
+        for step in &self.session {
             r.out.clear();
-            let ended = r.direct_line(line);
-            out.push((r.out.clone(), ended.clone()));
-            if r.grey.is_some() || matches!(ended, Ended::NeedInput | Ended::Budget) {
-                break;
+            match step {
+                Step::Direct(line) => {
+                    let ended = r.direct_line(line);
+                    out.push((r.out.clone(), ended.clone()));
+                    if r.grey.is_some() || matches!(ended, Ended::NeedInput | Ended::Budget) {
+                        break;
+                    }
+                }
+                Step::Edit(p) => {
+                    r.edit_program(p);
+                    out.push((String::new(), Ended::Ready));
+                }
             }
         }
         (out, r)
     }
+}
+
+/// The lines to type to turn program `old` into `new`.
+pub fn edit_lines(old: &Program, new: &Program) -> Vec<String> {
+    let mut out = vec![];
+    let old_text: std::collections::BTreeMap<u16, String> = (0..old.lines.len())
+        .map(|i| (old.lines[i].num, render_line(old, i)))
+        .collect();
+    let new_nums: std::collections::BTreeSet<u16> = new.lines.iter().map(|l| l.num).collect();
+    for n in old_text.keys() {
+        if !new_nums.contains(n) {
+            out.push(n.to_string());
+        }
+    }
+    for i in 0..new.lines.len() {
+        let t = render_line(new, i);
+        if old_text.get(&new.lines[i].num) != Some(&t) {
+            out.push(t);
+        }
+    }
+    out
 }
 
 impl Case for C01Case {
@@ -171,11 +209,27 @@ impl Case for C01Case {
         }
         let mut reply_pos = 0usize;
         let mut fail: Option<Violation> = None;
-        for (i, line) in self.session.iter().enumerate() {
+        let mut cur = self.prog.clone();
+        for (i, step) in self.session.iter().enumerate() {
             if i >= expected.len() {
                 break;
             }
-            let text = render_stmts(&self.prog, line);
+            let line = match step {
+                Step::Direct(l) => l,
+                Step::Edit(p) => {
+                    for l in edit_lines(&cur, p) {
+                        w.line(&l, &LineIo::budget(1000));
+                    }
+                    cur = p.clone();
+                    v.stats.bump("fault.edit");
+                    if w.fatal.is_none() && w.listing_text().lines().map(|s| s.to_string()).collect::<Vec<_>>() != render_program(&cur) {
+                        v.discarded = Some("listing after the edit is not the rendered program".into());
+                        break;
+                    }
+                    continue;
+                }
+            };
+            let text = render_stmts(&cur, line);
             let io = LineIo {
                 replies: self.replies[reply_pos.min(self.replies.len())..].to_vec(),
                 max_instr: 60_000,
@@ -233,11 +287,13 @@ impl Case for C01Case {
 
     fn shrink(&self) -> Vec<Box<dyn Case>> {
         let mut out: Vec<Box<dyn Case>> = vec![];
-        for p in shrink_program(&self.prog) {
-            out.push(Box::new(C01Case {
-                prog: p,
-                ..self.clone()
-            }));
+        if !self.session.iter().any(|s| matches!(s, Step::Edit(_))) {
+            for p in shrink_program(&self.prog) {
+                out.push(Box::new(C01Case {
+                    prog: p,
+                    ..self.clone()
+                }));
+            }
         }
         if self.session.len() > 1 {
             for i in 0..self.session.len() {
@@ -277,15 +333,20 @@ impl Case for C01Case {
         obj()
             .set("kind", "program + typed session; real transcript compared with the reference model's")
             .set("program", program_json(&self.lines()))
-            .set(
-                "session",
-                Json::Arr(
-                    self.session
-                        .iter()
-                        .map(|l| Json::Str(render_stmts(&self.prog, l)))
-                        .collect(),
-                ),
-            )
+            .set("session", {
+                let mut cur = self.prog.clone();
+                let mut v = vec![];
+                for st in &self.session {
+                    match st {
+                        Step::Direct(l) => v.push(Json::Str(render_stmts(&cur, l))),
+                        Step::Edit(p) => {
+                            v.push(obj().set("edit_by_typing", edit_lines(&cur, p)).build());
+                            cur = p.clone();
+                        }
+                    }
+                }
+                Json::Arr(v)
+            })
             .set("replies", self.replies.clone())
             .set("quantum_schedule_variant", self.sched_variant)
             .set("quantum_schedule_seed", self.sched_seed)
@@ -301,8 +362,8 @@ impl Case for C01Case {
 }
 
 /// Build a session for a program: RUN (or RUN n / GOTO n), CONT after each stop, a few direct lines.
-pub fn build_session(rng: &mut Rng, prog: &Program, cfg: &GenCfg) -> Vec<Vec<Stmt>> {
-    let mut session: Vec<Vec<Stmt>> = vec![];
+pub fn build_session(rng: &mut Rng, prog: &Program, cfg: &GenCfg) -> Vec<Step> {
+    let mut session: Vec<Step> = vec![];
     if rng.pct(20) {
         // direct statements before the run (RUN clears them, GOTO keeps them)
         let mut sub = rng.fork();
@@ -310,7 +371,7 @@ pub fn build_session(rng: &mut Rng, prog: &Program, cfg: &GenCfg) -> Vec<Vec<Stm
         let mut out = vec![];
         g.simple_line_public(&mut out);
         if !out.iter().any(|s| matches!(s, Stmt::Input { .. } | Stmt::Read(_))) {
-            session.push(out);
+            session.push(Step::Direct(out));
         }
     }
     let first = match rng.below(10) {
@@ -331,7 +392,7 @@ pub fn build_session(rng: &mut Rng, prog: &Program, cfg: &GenCfg) -> Vec<Vec<Stm
             }
         }
     };
-    session.push(first);
+    session.push(Step::Direct(first));
     session
 }
 
@@ -361,7 +422,7 @@ pub fn finish_session(rng: &mut Rng, case: &mut C01Case, cfg: &GenCfg) {
         }
         conts += 1;
         if rng.pct(25) {
-            case.session.push(vec![Stmt::Print {
+            case.session.push(Step::Direct(vec![Stmt::Print {
                 q: false,
                 items: vec![
                     PItem::E(Expr::var("N%")),
@@ -370,9 +431,9 @@ pub fn finish_session(rng: &mut Rng, case: &mut C01Case, cfg: &GenCfg) {
                     PItem::Semi,
                     PItem::E(Expr::var("S$")),
                 ],
-            }]);
+            }]));
         }
-        case.session.push(vec![Stmt::Cont]);
+        case.session.push(Step::Direct(vec![Stmt::Cont]));
         // keep the synthesiser's stream stable: replies already recorded are replayed first
         auto = auto.clone();
     }
